@@ -55,6 +55,11 @@ THEOREMS = [
     "C05_ser_stale_record_witness",
     "C05_for_transparent",
     "C05_for_no_rebuild_witness",
+    "C05_forest_hand_run_deep_ok",
+    "C05_hand_run_shallow_witness",
+    "C05_gate_transparent",
+    "C05_gate_skipped_witness",
+    "C05_toggle_stale_witness",
 ]
 RULE = (
     "twin histories: (node) every history up to length L over {set v, run, submit, complete, clearFailed, cancel, "
@@ -130,6 +135,8 @@ def _tree_shapes():
         [["n0", "F7", {"a": 3}], ["m0", "MC", {"a": "n0"}], ["m1", "MA", {"a": "m0", "b": "n0"}], ["n1", "F9", {"a": "m1", "b": "m0"}]],
         [["m0", "MD", {"a": 1}], ["n1", "F8", {"a": "m0"}]],
         [["m0", "MB", {}], ["m1", "MD", {"a": "m0"}]],
+        [["m0", "MF", {}], ["n1", "F8", {"a": "m0"}]],
+        [["n0", "F7", {}], ["m0", "ME", {}], ["n1", "F8", {"a": "m0", "b": "n0"}]],
     ]
 
 
@@ -259,6 +266,14 @@ def gen_cases(rng, tier):
             R = ["run"]
             yield {"kind": "tree", "shape": sh, "ops": [R, ["handrun", sel, 4], R, R]}
             yield {"kind": "tree", "shape": sh, "ops": [R, R, ["handrun", sel, 4], ["handrun", sel + 1, 5], R]}
+    # the readiness gate on a hit and the `use_cache` switch: NOT_DATA / hint-violating inputs recorded through `execute` or
+    # while hints are lax, hints and `use_cache` flipped between runs; exceptions compared
+    gops = ["gset0", "gset1", "gset2", "gset100", "grun", "grun", "gexec", "glaxon", "glaxoff", "gcacheon", "gcacheoff"]
+    if tier != "quick":
+        for h in _it.product(["gset0", "gset1", "gset100", "grun", "gexec", "glaxon", "glaxoff", "gcacheon", "gcacheoff"], repeat=4):
+            yield {"kind": "gate", "ops": list(h) + ["grun"]}
+    for _ in range(250 if tier == "quick" else 3000):
+        yield {"kind": "gate", "ops": [rng.choice(gops) for _ in range(rng.randint(3, 12))]}
     # `_serialize_result`: the job writes its result to a file, the future is withheld, run() picks the file up
     zops = ["zset1", "zset2", "zset3", "zrun", "zsubmit", "zwork", "zdeliver"]
     if tier != "quick":
@@ -344,6 +359,10 @@ def corpus():
     yield {"kind": "wf", "ops": [["run"], ["rewire", 2, "a", 0], ["run"]], "macro": False}
     yield {"kind": "wf", "ops": [["run"], ["setinner", 1, "a", "y"], ["run"]], "macro": False}
     yield {"kind": "ser", "ops": ["zset1", "zrun", "zset2", "zsubmit", "zwork", "zrun", "zset1", "zrun"]}  # C05-12
+    yield {"kind": "gate", "ops": ["gexec", "grun"]}  # C05-14
+    yield {"kind": "gate", "ops": ["glaxon", "gset100", "grun", "glaxoff", "grun"]}
+    yield {"kind": "gate", "ops": ["gset1", "grun", "gcacheoff", "gset2", "grun", "gcacheon", "gset1", "grun"]}  # C05-15
+    yield {"kind": "tree", "shape": _tree_shapes()[6], "ops": [["run"], ["handrun", 1, 4], ["run"], ["run"]]}  # C05-13
     yield {"kind": "for", "where": "alone", "ops": [["run"], ["editbody", 1, "b", 4], ["run"], ["run"]]}  # C05-10
     yield {"kind": "tree", "shape": _tree_shapes()[0], "ops": [["run"], ["handrun", 0, 4], ["run"]]}  # KF-C05-10
     yield {"kind": "switch", "factory": "inputs_to_list", "n": 3}  # KF-C05-8
@@ -896,10 +915,11 @@ def _resolve(host, op, spares=None):
                             continue
                         cands.append(["connect2", path, c.label, ch.label, s.label])
             elif kind == "handrun":
-                # a child of the root none of whose inputs is connected (nothing upstream to consult)
+                # a child — at any depth — none of whose inputs is connected or linked (nothing else is consulted)
                 # (a function node: a macro run by hand re-pushes values through its links, which the code's key holds and
                 # the model does not — the code then misses where the model would hit, cf. the fetch cases)
-                if is_root and not _is_comp(c) and hasattr(c.outputs, "o") and not any(ch.connected for ch in c.inputs):
+                if not _is_comp(c) and hasattr(c.outputs, "o") and not any(
+                        ch.connected or (not is_root and _link_index(comp, ch) is not None) for ch in c.inputs):
                     ch = next((ch for ch in c.inputs if _code(ch.value) is not None), None)
                     if ch is not None:
                         # another value than the one it holds: with the same value the child answers from its own cache,
@@ -952,7 +972,7 @@ def _apply_tree(host, op, use_cache, sched=None, spares=None):
             _at(host, op[1]).children[op[2]].inputs[op[3]].value = _val(op[4])
             return "unit", host
         if op[0] == "handrun":
-            child = host.children[op[2]]
+            child = _at(host, op[1]).children[op[2]]
             ch = child.inputs[op[3]]
             keep = ch.value
             ch.value = _val(op[4])
@@ -1046,6 +1066,16 @@ def _model_line(op):
 
 def _outs(host):
     return ";".join(f"{_lid(c.label)}={_term(c.outputs.o.value)}" for c in host if hasattr(c.outputs, "o"))
+
+
+def _outs_deep(host):
+    """the output of every node of the graph, at every depth (each of them is a node whose outputs the property speaks of)"""
+    parts = []
+    for path, comp in _comps(host):
+        for c in comp:
+            if hasattr(c.outputs, "o"):
+                parts.append("/".join(str(_lid(p)) for p in path + [c.label]) + "=" + _term(c.outputs.o.value))
+    return ";".join(parts)
 
 
 def _run_tree(host, sched):
@@ -1165,7 +1195,7 @@ def _run_tree_case(case):
             executed = sorted(f"f{e[0]}(" + ",".join(_term(x) for x in e[1:]) + ")" for e in nodes.CALL_LOG[n0:])
             rb = _run_tree(b, sb)
             hits += int(hit)
-            rows.append({"op": ["run"], "resolved": ["run"], "c": ra, "u": rb, "vc": _outs(a), "vu": _outs(b),
+            rows.append({"op": ["run"], "resolved": ["run"], "c": ra, "u": rb, "vc": _outs_deep(a), "vu": _outs_deep(b),
                          "hit": hit, "calls": calls, "key": key})
             # A miss of the code is passed on (the code's key also holds the values last PUSHED through value links,
             # which lag one run behind — outside the model); a hit of the code must be a hit of the model's key.
@@ -1189,7 +1219,7 @@ def _run_tree_case(case):
         idx, before_conns = None, []
         hand_keep, n_hand = None, len(nodes.CALL_LOG)
         if cop[0] == "handrun":
-            hand_keep = _code(a.children[cop[2]].inputs[cop[3]].value)
+            hand_keep = _code(_at(a, cop[1]).children[cop[2]].inputs[cop[3]].value)
         if cop[0] in ("setin", "rewire", "connect2", "reprio", "handrun"):
             child = _at(a, cop[1]).children.get(cop[2])
             if child is not None:
@@ -1221,10 +1251,10 @@ def _run_tree_case(case):
             continue
         if cop[0] == "handrun":
             fonly[0] = True
-            mlines += [f"tsetin - {_lid(cop[2])} {idx} v{cop[4]}", f"thandrun {_lid(cop[2])}",
-                       f"tsetin - {_lid(cop[2])} {idx} v{hand_keep}"]
-            child = a.children[cop[2]]
-            obs.append(f"F hand {_lid(cop[2])} out={_term(child.outputs.o.value)} calls={','.join(hand_calls)}")
+            ps = _path_str(cop[1])
+            mlines += [f"tsetin {ps} {_lid(cop[2])} {idx} v{cop[4]}", f"thandrun {ps} {_lid(cop[2])}",
+                       f"tsetin {ps} {_lid(cop[2])} {idx} v{hand_keep}"]
+            obs.append(f"F hand {_lid(cop[2])} calls={','.join(hand_calls)}")
         elif cop[0] in ("connect2", "reprio"):
             # predicted, not read back: the upstream named by the edit moves to the front of what the channel had
             rest = [u for u in before_conns if u != cop[4]]
@@ -1522,6 +1552,18 @@ class _SilentExec:
                     except BaseException as e:  # noqa: BLE001
                         self.done = (fut, None, e)
 
+            def settle(self):
+                """do the job just submitted and deliver it at once, leaving an older withheld future where it is (the
+                cached twin answered this submission from its cache: its executor still holds that older future too)"""
+                if self.job is not None:
+                    fut, fn, args, kwargs = self.job
+                    self.job = None
+                    fut.set_running_or_notify_cancel()
+                    try:
+                        fut.set_result(fn(*args, **kwargs))
+                    except BaseException as e:  # noqa: BLE001
+                        fut.set_exception(e)
+
             def deliver(self):
                 if self.done is not None:
                     fut, res, exc = self.done
@@ -1593,8 +1635,7 @@ def _run_ser_case(case):
         rb = app(b, eb, op)
         settled = False
         if op == "zsubmit" and ra.startswith("ret:") and rb == "future":
-            eb.work()
-            eb.deliver()
+            eb.settle()
             settled = True
         if op in ("zrun", "zsubmit") and ra.startswith("ret:") and len(nc.CALLS["c"]) == k and not a.running:
             hits += 1
@@ -1676,7 +1717,71 @@ def _run_for_case(case):
                       "for_body_edits": sum(1 for r in rows if r["op"][0] in ("editbody", "wirebody") and r["c"] == "unit")}}
 
 
+def _run_gate_case(case):
+    from pyiron_workflow.channels import NOT_DATA
+    from pyiron_workflow.mixin.run import ReadinessError
+
+    from . import nodes_c05 as nc
+
+    a, b = nc.TY(label="tc"), nc.TY(label="tu")
+    a.recovery = b.recovery = None
+    b.use_cache = False
+
+    def val(v):
+        return NOT_DATA if v == 0 else (f"s{v}" if v >= 100 else v)
+
+    def res(r):
+        x = r[1] if isinstance(r, tuple) else r
+        return "ret:ND" if r is NOT_DATA else f"ret:F({0 if x is NOT_DATA else (int(x[1:]) if isinstance(x, str) else x)})"
+
+    def app(n, op, twin):
+        try:
+            if op.startswith("gset"):
+                n.inputs.x.value = val(int(op[4:]))
+                return "unit"
+            if op == "grun":
+                return res(n.run())
+            if op == "gexec":
+                return res(n.execute())
+            if op == "glaxon":
+                n.deactivate_strict_hints()
+                return "unit"
+            if op == "glaxoff":
+                n.activate_strict_hints()
+                return "unit"
+            if op in ("gcacheon", "gcacheoff"):
+                if not twin:
+                    n.use_cache = op == "gcacheon"
+                return "unit"
+        except ReadinessError:
+            return "readiness"
+        except TypeError:
+            return "refused" if op.startswith("gset") else "exc:TypeError"  # the hint refuses the value
+        except Exception as e:  # noqa: BLE001
+            return f"exc:{type(e).__name__}"
+        return "bad-op"
+
+    def out(n):
+        o = n.outputs.o.value
+        return "ND" if o is NOT_DATA else res(o)[4:]
+
+    rows, obs, hits = [], [], 0
+    for op in case["ops"]:
+        k = len(nc.DESC_CALLS)
+        ra = app(a, op, False)
+        if op in ("grun", "gexec") and ra.startswith("ret:") and len(nc.DESC_CALLS) == k:
+            hits += 1
+        rb = app(b, op, True)
+        line = f"c={ra} u={rb} oc={out(a)} ou={out(b)}"
+        rows.append({"op": op, "c": ra, "u": rb, "vc": out(a), "vu": out(b)})
+        obs.append(line)
+    return {"obs": obs, "rows": rows, "hits": hits, "special": 1,
+            "stats": {"gate_cases": 1, "gate_hits": hits, "gate_refusals": sum(1 for r in rows if r["u"] == "readiness")}}
+
+
 def run_impl(case):
+    if case["kind"] == "gate":
+        return _run_gate_case(case)
     if case["kind"] == "ser":
         return _run_ser_case(case)
     if case["kind"] == "for":
@@ -1702,6 +1807,8 @@ def nontrivial(case, impl):
 
 
 def model_input(case, impl):
+    if case["kind"] == "gate":
+        return [(f"gset {op[4:]}" if op.startswith("gset") else op) for op in case["ops"]]
     if case["kind"] == "ser":
         return [(f"zset {op[4:]}" if op.startswith("zset") else op) for op in case["ops"]]
     if case["kind"] == "for":
@@ -1740,6 +1847,8 @@ def _diff_variants(mine, variants, ops=None):
 
 
 def diff(case, impl, model):
+    if case["kind"] == "gate":
+        return _diff_variants(list(impl["obs"]), {"G": [l[2:] for l in model if l.startswith("G ")]}, case["ops"])
     if case["kind"] == "for":
         return None  # twin oracle; the Lean side is C05_for_transparent / C05_for_no_rebuild_witness
     if case["kind"] == "ser":
@@ -1881,6 +1990,8 @@ def _trigger(case, impl, k):
             if u == "future":
                 return "while-in-flight"
         return "other"
+    if case["kind"] == "gate":
+        return "use-cache-switched" if any(r["op"].startswith("gcache") for r in rows[:k]) else "readiness-gate-on-a-hit"
     if case["kind"] == "ser":
         return "after-pick-up-from-result-file" if any(r["op"] == "zwork" for r in rows[:k]) else "serialized-run"
     if case["kind"] == "for":
